@@ -661,11 +661,19 @@ impl<'a> Searcher<'a> {
                         Ok(entry) => {
                             let mut path = entry.path();
                             let pass_ignores = if apply_gitignore || apply_hgignore || apply_dockerignore {
+                                // the entry is judged by its own name: its directory is made canonical,
+                                // the entry itself is not resolved if it is a symbolic link
                                 let mut canonical_path = path.clone();
 
                                 if apply_gitignore || apply_hgignore || apply_dockerignore {
-                                    if let Ok(canonicalized) = crate::util::canonical_path(&path) {
-                                        canonical_path = PathBuf::from(canonicalized);
+                                    let parent = match path.parent() {
+                                        Some(parent) if !parent.as_os_str().is_empty() => parent.to_path_buf(),
+                                        _ => PathBuf::from("."),
+                                    };
+                                    if let (Ok(parent), Some(name)) =
+                                        (crate::util::canonical_path(&parent), path.file_name())
+                                    {
+                                        canonical_path = PathBuf::from(parent).join(name);
                                     }
                                 }
 
